@@ -56,6 +56,17 @@ func TestC17Seq(t *testing.T) {
 		var ops []string
 		var snaps []string
 		durMode := r.Intn(4)
+		// a long soak: thousands of iterations of about two hours (or a few of many days), so that the
+		// lifetime sums pass 2^53 ns; all but one iteration take D+1 ns, one takes D: the exact mean
+		// lies just below D+1
+		soakD, soakOdd := int64(0), -1
+		if i%25 == 7 {
+			durMode = 4
+			ln = int(r.Range(1500, 2600))
+			soakD = kit.Pick(r, int64(7_200_000_000_000), 7_200_000_000_000, r.Range(6_000_000_000_000, 9_000_000_000_000))
+			soakOdd = r.Intn(ln / 2)
+			o.Count("durations", "long soak beyond 2^53 ns in total")
+		}
 		nsnap := 0
 		for k := 0; k < ln; k++ {
 			switch {
@@ -79,6 +90,12 @@ func TestC17Seq(t *testing.T) {
 					ns = r.Range(1, 3_600_000_000_000)
 				case 2:
 					ns = kit.Pick(r, int64(1), 2, 1000, 999_999_999, 7)
+				case 4:
+					ns = soakD + 1
+					if k == soakOdd {
+						ns = soakD
+					}
+					oc = kit.Pick(r, 0, 0, 0, 0, 0, 1) // mostly one outcome, so that its sum gets there
 				default:
 					ns = r.Range(1_000_000, 50_000_000)
 				}
